@@ -663,6 +663,45 @@ theorem isk_lite_parse_export_refuted :
   have := congrArg (fun l => l.head?) h
   revert this; decide
 
+/-- certificate block v1, ANY input the parser accepts (not only exported blocks): the header parses, the block has as many certificates as
+    announced, all of them passed the X.509 check, the RKH table has its four slots.  If at least one certificate is present and the header's
+    `cert_table_length` equals the size of the entries actually read (SPSDK's parser never compares the two; the ROM uses the field to find the
+    RKH table), then the parsed block is well formed, re-exporting it gives the first `n = 32 + cert_table_length + 128` input bytes followed by
+    zero padding to 16 - the canonical form - and parsing the canonical form (with anything after it) gives the same block -/
+theorem certblock_v1_parse_canonical (certOk : Bytes → Bool) (data : Bytes) (cb : CertBlockV1)
+    (h : parseV1Block certOk data = .ok cb) :
+    ∃ hd : HeaderV1, headerV1Parse data = .ok hd ∧ cb.certs.length = hd.certCount ∧ cb.rkh.length = 4 ∧
+      (∀ x ∈ cb.certs, certOk x = true) ∧
+      (hd.certCount ≠ 0 → hd.certTableLength = certTableLength cb.certs →
+        WFv1 certOk cb ∧
+        exportV1Block true cb = .ok (data.take (32 + certTableLength cb.certs + 128) ++
+          List.replicate (Misc.alignNat (32 + certTableLength cb.certs + 128) 16 - (32 + certTableLength cb.certs + 128)) 0) ∧
+        ∀ rest, parseV1Block certOk (data.take (32 + certTableLength cb.certs + 128) ++
+          List.replicate (Misc.alignNat (32 + certTableLength cb.certs + 128) 16 - (32 + certTableLength cb.certs + 128)) 0 ++ rest) = .ok cb) := by
+  obtain ⟨hd, h1, h2, h3, h4, ha, h5⟩ := parseV1Block_inv certOk data cb h
+  refine ⟨hd, h1, h2, h3, h4, fun hne hctl => ?_⟩
+  obtain ⟨wf, hb⟩ := h5 hne hctl
+  have hlen := bodyV1_len certOk cb wf
+  have ha16 : cb.alignment = 16 := ha
+  have hbytes : bytesV1 cb = data.take (32 + certTableLength cb.certs + 128) ++
+      List.replicate (Misc.alignNat (32 + certTableLength cb.certs + 128) 16 - (32 + certTableLength cb.certs + 128)) 0 := by
+    rw [bytesV1, hlen, ha16, hb]
+  refine ⟨wf, by rw [← hbytes]; exact exportV1Block_ok certOk cb wf, fun rest => ?_⟩
+  rw [← hbytes, parse_exportV1_tail certOk cb wf rest, pad4_of_len4 _ h3]
+  cases cb
+  simp only at ha
+  simp only [ha]
+
+set_option maxRecDepth 20000 in
+/-- the plain statement `parse b = ok cb → export cb = b` is FALSE for certificate block v1: a block announcing ZERO certificates is accepted by
+    `CertBlockV1.parse`, but `export` refuses a block without certificates.  (A second family of counterexamples: a `cert_table_length` field
+    that differs from the entries present - accepted, re-exported with the recomputed length.)  Missing hypotheses of the full statement:
+    `certificate_count ≠ 0`, `cert_table_length` consistent, zero padding, nothing after the block. -/
+theorem certblock_v1_parse_export_refuted :
+    ∃ (data : Bytes) (cb : CertBlockV1), parseV1Block (fun _ => true) data = .ok cb ∧ exportV1Block true cb = .error .spsdk :=
+  ⟨[0x63, 0x65, 0x72, 0x74, 1, 0, 0, 0, 32, 0, 0, 0] ++ List.replicate 20 0 ++ List.replicate 128 7,
+   ⟨1, 0, 0, 0, 0, [], [List.replicate 32 7, List.replicate 32 7, List.replicate 32 7, List.replicate 32 7], 16⟩, rfl, rfl⟩
+
 /-! ## 6g. Certificate block v1 inside an SB 2.1 file: what the loader model of C04 reads (phase 3) -/
 
 /-- SB 2.1 (`Spec/Sb2Rom.lean`, the loader side of C04, written independently with its own constants): wherever the exported block sits in
